@@ -29,7 +29,8 @@ def main(argv: list[str]) -> int:
         print(f"no check for {prop}")
         return 2
     pre = getattr(mod, "pre_build", None)
-    build = C.coq_build(pre)
+    targets = [f"theories/Properties/{prop}.v"] + list(getattr(mod, "NEEDED", []))
+    build = C.coq_build(pre, targets)
     chk = C.Check(prop, tier)
     try:
         mod.main(chk, build)
